@@ -10,6 +10,7 @@ func init() {
 		c.Clause("an object put back into a sync.Pool is not used afterwards on any path (deferred calls in the order they run)")
 		c.Clause("snapshots handed to readers (metrics, listings) are copies that share no mutable storage with the guarded original; no lock is held across a write to a client connection (a stalled client would block every writer of that lock)")
 		c.Clause("a field of the loaded configuration that is stored at run time (the strategy name) is read only under the writer's lock or by start-up code that main runs before any goroutine that can reach the writer exists")
+		c.Clause("every field operated on with sync/atomic's 64-bit functions lies at an 8-byte aligned offset of its allocation under the 386/arm layout (otherwise the operation panics on 32-bit platforms)")
 		c.NotDecided("races through aliases the field-based analysis cannot see; races inside third-party code; deadlocks that need a specific blocking I/O pattern — this is a lint-grade race analysis, not a proof of race freedom")
 		lockDiscipline(c, nil)
 		lockPairing(c, nil)
@@ -18,5 +19,6 @@ func init() {
 		c.snapshotNoEscape()
 		c.poolReleasedLast()
 		c.configStableAfterStart()
+		c.Floor("atomic64-aligned", atomic64Aligned(c, nil), 5, "fields operated on with 64-bit atomics")
 	}
 }
